@@ -45,7 +45,7 @@ CLAUSES = {
     "header-parameter parser never raises": "parseHeader_total_partial (no RFC 2231 parameter), parseHeader_total_refuted "
         "(known finding: malformed RFC 2231 continuations/charsets raise TypeError/ValueError/UnicodeError)",
     "cookie parser never raises": "tie only: the model parseCookie is a total function without an error outcome; the oracle checks the implementation",
-    "host/port splitter never raises": "splitHostPort_total, splitHostPortOld_raises_iff (after fix bbc6fff)",
+    "host/port splitter never raises": "splitHostPort_total, splitHostPortOld_raises_iff (after fix 7eb1536)",
     "token-valued header parameters round-trip through encoding": "tie only: param_roundtrip_goal stated; oracle on every `encode` case",
     "HTTP timestamps round-trip through formatting and parsing": "tie only: civil_roundtrip_goal, timestamp_roundtrip_goal stated; oracle on every `ts` case",
     "url_concat preserves existing query pairs and fragment and appends the arguments":
